@@ -28,6 +28,109 @@ type StubScript struct {
 	PlainCaps []string
 	TLSCaps   []string
 	Gap       Dur
+	LMTP      []StubTxn // non-nil: a scripted LMTP server, one entry per MAIL it accepts
+}
+
+// StubTxn scripts one LMTP transaction of the stub: the reply to each RCPT in
+// order, the reply to DATA (354, or a refusal), and after the message one final
+// reply per accepted recipient.
+type StubTxn struct {
+	Rcpt   []int
+	Data   int
+	Finals []int
+}
+
+// runLMTPStub is a strict little LMTP server: a transaction ends with its final
+// replies, with a refused DATA it stays open until RSET or the next MAIL, which
+// starts the next scripted transaction with an empty recipient list.
+func runLMTPStub(raw *SimConn, s *StubScript, h *StubHistory) {
+	rd := bufio.NewReader(raw)
+	write := func(x string) { raw.Write([]byte(x)) }
+	write("220 stub.example LMTP\r\n")
+	ti, ri, accepted := -1, 0, 0
+	for {
+		raw.SetReadDeadline(time.Now().Add(40 * time.Minute))
+		l, err := rd.ReadString('\n')
+		if err != nil {
+			h.Ended = err.Error()
+			raw.Close()
+			return
+		}
+		l = strings.TrimRight(l, "\r\n")
+		h.PlainLines = append(h.PlainLines, l)
+		up := strings.ToUpper(l)
+		switch {
+		case strings.HasPrefix(up, "LHLO"):
+			write("250-stub.example\r\n250-PIPELINING\r\n250 ENHANCEDSTATUSCODES\r\n")
+		case strings.HasPrefix(up, "MAIL"):
+			ti++
+			ri, accepted = 0, 0
+			if ti >= len(s.LMTP) {
+				write("451 4.3.0 the script has no more transactions\r\n")
+				continue
+			}
+			write("250 2.1.0 sender ok\r\n")
+		case strings.HasPrefix(up, "RCPT"):
+			code := 550
+			if ti >= 0 && ti < len(s.LMTP) && ri < len(s.LMTP[ti].Rcpt) {
+				code = s.LMTP[ti].Rcpt[ri]
+			}
+			ri++
+			if code == 250 {
+				accepted++
+				write("250 2.1.5 recipient ok\r\n")
+			} else {
+				write(itoa(code) + " 5.1.1 no such recipient\r\n")
+			}
+		case strings.HasPrefix(up, "DATA"):
+			if ti < 0 || ti >= len(s.LMTP) || accepted == 0 {
+				write("503 5.5.1 no recipients\r\n")
+				continue
+			}
+			if d := s.LMTP[ti].Data; d != 354 {
+				write(itoa(d) + " 4.3.0 not now\r\n")
+				continue
+			}
+			write("354 go ahead\r\n")
+			for {
+				dl, err := rd.ReadString('\n')
+				if err != nil {
+					h.Ended = err.Error()
+					raw.Close()
+					return
+				}
+				if dl == ".\r\n" {
+					break
+				}
+				h.PlainData += len(dl)
+			}
+			for k := 0; k < accepted; k++ {
+				code := 250
+				if k < len(s.LMTP[ti].Finals) {
+					code = s.LMTP[ti].Finals[k]
+				}
+				switch code {
+				case 250:
+					write("250 2.0.0 delivered\r\n")
+				case 452:
+					write("452 4.2.2 over quota\r\n")
+				default:
+					write(itoa(code) + " 5.2.0 mailbox unavailable\r\n")
+				}
+			}
+			accepted, ri = 0, 0
+		case strings.HasPrefix(up, "RSET"):
+			accepted, ri = 0, 0
+			write("250 2.0.0 reset\r\n")
+		case strings.HasPrefix(up, "QUIT"):
+			write("221 2.0.0 bye\r\n")
+			raw.Close()
+			h.Ended = "quit"
+			return
+		default:
+			write("250 2.0.0 ok\r\n")
+		}
+	}
 }
 
 // StubHistory is what the stub saw.
